@@ -8,6 +8,7 @@ import (
 	"os"
 	"path/filepath"
 	"strings"
+	"syscall"
 	"testing"
 
 	wt "github.com/hnakamur/whispertool"
@@ -74,7 +75,7 @@ func runC11(c C11Case, ev *Evid) (fs []Finding) {
 				add("setup", "%v", err)
 				return
 			}
-		case "first-file", "coarser-equal":
+		case "first-file", "coarser-equal", "readonly":
 			var first *TreeFile
 			for k := range c.Files {
 				if strings.ReplaceAll(c.Files[k].Dir, "/", ".") == item {
@@ -161,10 +162,48 @@ func runC11(c C11Case, ev *Evid) (fs []Finding) {
 	scc := &cmd.SumCopyCommand{SrcBase: base, DestBase: destBase, ItemPattern: c.ItemPattern, SrcPattern: c.SrcPattern, DestRelPath: c.DestRel,
 		AggregationMethod: wt.AggregationMethod(l.Method), XFilesFactor: l.XFF, ArchiveInfoList: wtArchives(l),
 		From: wt.Timestamp(c.From), Until: wt.Timestamp(c.Until), ArchiveID: c.ArchiveID, TextOut: filepath.Join(dir, "sumcopy.txt")}
+	readonly := false
+	for i := range items {
+		if c.DestModes[i%len(c.DestModes)] == "readonly" {
+			readonly = true
+		}
+	}
+	asNobody := readonly && os.Geteuid() == 0
+	if asNobody {
+		// read-only destinations: the checks run as root, so the command runs under the effective uid of
+		// "nobody" (restored right afterwards); it must either refuse or really store the sum
+		os.Chmod(dir, 0755)
+		filepath.Walk(destBase, func(p string, info os.FileInfo, err error) error {
+			if err == nil && !info.IsDir() {
+				os.Chmod(p, 0444)
+			}
+			return nil
+		})
+		os.Chmod(filepath.Join(dir, "sumcopy.txt"), 0666)
+		os.WriteFile(filepath.Join(dir, "sumcopy.txt"), nil, 0666)
+		os.Chmod(filepath.Join(dir, "sumcopy.txt"), 0666)
+		if e := syscall.Seteuid(65534); e != nil {
+			asNobody = false
+		}
+	}
 	err, pm := runCommand(now, scc)
+	if asNobody {
+		syscall.Seteuid(0)
+		filepath.Walk(destBase, func(p string, info os.FileInfo, err error) error {
+			if err == nil && !info.IsDir() {
+				os.Chmod(p, 0644)
+			}
+			return nil
+		})
+	}
 	if pm != "" {
 		add("sum-copy-panic", "sum-copy %s: panicked: %s", desc, pm)
 		return
+	}
+	if err != nil && readonly {
+		// refusing to write a read-only destination is the correct outcome
+		ev.Count(HashJSON(c), false, "dest=readonly", "refused")
+		return nil
 	}
 	if err != nil {
 		add("sum-copy-error", "sum-copy %s: failed: %v", desc, err)
@@ -325,7 +364,7 @@ func genC11(t *rapid.T) C11Case {
 	c.SrcPattern = rapid.SampledFrom([]string{"*.wsp", "*.wsp", "f?.wsp", "f[12].wsp", "f1.wsp"}).Draw(t, "srcPattern")
 	n := rapid.IntRange(1, 3).Draw(t, "modes")
 	for i := 0; i < n; i++ {
-		c.DestModes = append(c.DestModes, rapid.SampledFrom([]string{"absent", "fresh", "first-file", "first-file", "random", "coarser-equal", "coarser-equal", "near-sum"}).Draw(t, "destMode"))
+		c.DestModes = append(c.DestModes, rapid.SampledFrom([]string{"absent", "fresh", "first-file", "first-file", "random", "coarser-equal", "coarser-equal", "near-sum", "readonly"}).Draw(t, "destMode"))
 	}
 	c.DestWrites = genWrites(t, l, now, valDyadic, 10)
 	k := rapid.IntRange(0, 3).Draw(t, "perturb")
